@@ -108,6 +108,7 @@ class Prop(BaseProp):
         ok = self.proviso(table, text, case['operand'])
         tags = ['ctx=' + case.get('ctx', '?'), 'proviso=' + ('holds' if ok else 'fails')]
         try:
+            impl.prewarm(lic, text, {})
             e = lic.parse(text)
             ip = [T('ok'), impl.tree_c(e)]
             rend = str(e)
